@@ -17,6 +17,8 @@ Definition get_ans (s : sexp) : sres :=
   else if head_is s "walk" then AWalk (map get_qid (tl (get_list s)))
   else if head_is s "open" then AOpen (get_qid (arg s 0)) (get_N (arg s 1))
   else if head_is s "stat" then AStat (get_bytes (arg s 0))
+  else if head_is s "read" then ARead (get_bytes (arg s 0))
+  else if head_is s "written" then AWritten (get_N (arg s 0))
   else if is_sym s (str "unit") then AUnit
   else AErr.
 
@@ -25,12 +27,22 @@ Definition names_of (s : sexp) : list bstr := map get_bytes (get_list s).
 Definition slot (slots : list cEnt) (s : sexp) : cEnt := nth (N.to_nat (get_N s)) slots noEnt.
 
 (* (op, answer, slot index the op works on) *)
-Definition get_op (slots : list cEnt) (s : sexp) : op * sres * nat :=
+(* auth files are referred to by the index of the Auth operation that returned them
+   (a failed Auth returns noAuth: afid NOFID) *)
+Definition aslot (aslots : list N) (s : sexp) : N := nth (N.to_nat (get_N s)) aslots NOFID.
+
+Definition get_op (slots : list cEnt) (aslots : list N) (s : sexp) : op * sres * nat :=
   let i := N.to_nat (get_N (arg s 0)) in
   if head_is s "attach" then
     (OAttach (get_bytes (arg s 0)) (get_bytes (arg s 1))
-       (match get_N (arg s 2) with 0%N => AfNil | 1%N => AfFile (get_N (arg s 3)) | _ => AfOther end),
+       (match get_N (arg s 2) with 0%N => AfNil | 1%N => AfFile (aslot aslots (arg s 3)) | _ => AfOther end),
      get_ans (arg s 4), 0%nat)
+  else if head_is s "auth" then (OAuth (get_bytes (arg s 0)) (get_bytes (arg s 1)), get_ans (arg s 2), 0%nat)
+  else if head_is s "aread" then
+    (OARead (aslot aslots (arg s 0)) (get_N (arg s 1)) (get_Z (arg s 2)), get_ans (arg s 3), 0%nat)
+  else if head_is s "awrite" then
+    (OAWrite (aslot aslots (arg s 0)) (get_bytes (arg s 1)) (get_Z (arg s 2)), get_ans (arg s 3), 0%nat)
+  else if head_is s "aclose" then (OAClose (aslot aslots (arg s 0)), get_ans (arg s 1), 0%nat)
   else if head_is s "walk" then (OWalk (slot slots (arg s 0)) (names_of (arg s 1)), get_ans (arg s 2), i)
   else if head_is s "open" then (OOpen (slot slots (arg s 0)) (get_N (arg s 1)), get_ans (arg s 2), i)
   else if head_is s "opendir" then (OOpenDir (slot slots (arg s 0)), get_ans (arg s 1), i)
@@ -52,6 +64,9 @@ Definition sexp_of_call (c : option scall) : sexp :=
   | Some (SWStat f d) => SList [ssym "wstat"; snat f; SBytes d]
   | Some (SClunk f) => SList [ssym "clunk"; snat f]
   | Some (SRemove f) => SList [ssym "remove"; snat f]
+  | Some (SAuth f u n) => SList [ssym "auth"; snat f; SBytes u; SBytes n]
+  | Some (SRead f c o) => SList [ssym "read"; snat f; snat c; SNum o]
+  | Some (SWrite f d o) => SList [ssym "write"; snat f; SBytes d; SNum o]
   end.
 
 Definition sexp_of_res (r : cres) : sexp :=
@@ -65,6 +80,9 @@ Definition sexp_of_res (r : cres) : sexp :=
   | CCreated e iou => SList [ssym "created"; snat (c_fid e); sexp_of_qid (c_qid e); SNum iou]
   | CStat d => SList [ssym "stat"; SBytes d]
   | CUnit => ssym "unit"
+  | CAuth a iou => SList [ssym "authfile"; snat a; SNum iou]
+  | CRead d => SList [ssym "read"; SBytes d]
+  | CWritten n => SList [ssym "written"; snat n]
   | CErr => ssym "err"
   | CRefused => ssym "refused"
   | CPanic => ssym "panic"
@@ -85,11 +103,11 @@ Fixpoint set_nth {A} (n : nat) (x : A) (l : list A) : list A :=
   | y :: r, S k => y :: set_nth k x r
   end.
 
-Fixpoint run_ops (msize : Z) (st : sys) (slots : list cEnt) (ops : list sexp) : list sexp :=
+Fixpoint run_ops (table : bool) (msize : Z) (st : sys) (slots : list cEnt) (aslots : list N) (ops : list sexp) : list sexp :=
   match ops with
   | [] => []
   | s :: rest =>
-      let '(o, a, i) := get_op slots s in
+      let '(o, a, i) := get_op slots aslots s in
       let '(st', c, r) := step msize st o a in
       let slots' := match r with
                     | CEnt e => (slots ++ [e])%list
@@ -97,8 +115,14 @@ Fixpoint run_ops (msize : Z) (st : sys) (slots : list cEnt) (ops : list sexp) : 
                     | CCreated e _ => set_nth i e slots
                     | _ => slots
                     end in
-      SList [sexp_of_call c; sexp_of_res r; SList (map snat (sort_fids (s_srv st')))]
-        :: run_ops msize st' slots' rest
+      SList (sexp_of_call c :: sexp_of_res r ::
+             (if table then [SList (map snat (sort_fids (s_srv st')))] else []))
+        :: run_ops table msize st' slots'
+             (match o, r with
+              | OAuth _ _, CAuth af _ => (aslots ++ [af])%list
+              | OAuth _ _, _ => (aslots ++ [NOFID])%list
+              | _, _ => aslots
+              end) rest
   end.
 
 (* ---- long histories: (long msize rounds keep_every) ----
@@ -182,7 +206,10 @@ Definition long_run (msize : Z) (rounds keep_every : N) : sexp :=
 
 Definition run_case (c : sexp) : sexp :=
   if head_is c "cfs" then
-    SList (run_ops (get_Z (arg c 0)) sys0 [] (tl (tl (get_list c))))
+    SList (run_ops true (get_Z (arg c 0)) sys0 [] [] (tl (tl (get_list c))))
+  (* the same over a session with no server behind it: no table to compare *)
+  else if head_is c "cfsx" then
+    SList (run_ops false (get_Z (arg c 0)) sys0 [] [] (tl (tl (get_list c))))
   else if head_is c "long" then long_run (get_Z (arg c 0)) (get_N (arg c 1)) (get_N (arg c 2))
   else SList [ssym "unknown-case"].
 
